@@ -8,6 +8,7 @@ package main
 import (
 	"fmt"
 	"go/types"
+	"net/http"
 
 	"golang.org/x/tools/go/ssa"
 )
@@ -118,6 +119,40 @@ func init() {
 			ex.callMethod(fr, w, "Write", sliceOfBytes(mkStr(fmt.Sprintf("{\"json-doc\":%d}\n", len(docs))).b))
 		}
 		return Iface{}
+	})
+}
+
+func init() {
+	// Basic auth: identity container behind an opaque Authorization token
+	reg("(*net/http.Request).SetBasicAuth", func(ex *Exec, fr *frame, fn *ssa.Function, args []Value) Value {
+		r := args[0].(*Value)
+		ex.stub("HTTP Basic auth: (user,password) carried as an identity container (base64 is net/http's job); user ids contain no ':' (RFC 7617)")
+		hdr := (*r).(Struct)[5].(*Map)
+		n, _ := ex.pathState["basic-count"].(int)
+		ex.pathState["basic-count"] = n + 1
+		tok := fmt.Sprintf("Basic ~cred%d~", n)
+		ex.pathState["basic:"+tok] = [2]Str{args[1].(Str), args[2].(Str)}
+		ex.mapUpdate(hdr, mkStr("Authorization"), Slice{[]Value{mkStr(tok)}})
+		return nil
+	})
+	reg("(*net/http.Request).BasicAuth", func(ex *Exec, fr *frame, fn *ssa.Function, args []Value) Value {
+		r := args[0].(*Value)
+		hdr, _ := (*r).(Struct)[5].(*Map)
+		e := ex.mapFind(hdr, mkStr("Authorization"))
+		if e == nil || len(e.v.(Slice).a) == 0 {
+			return Tuple{Str{}, Str{}, tFalse}
+		}
+		v := e.v.(Slice).a[0].(Str)
+		c, ok := v.concrete()
+		if !ok {
+			ex.unsupported("Request.BasicAuth on a symbolic Authorization header")
+		}
+		if cred, ok := ex.pathState["basic:"+c].([2]Str); ok {
+			return Tuple{cred[0], cred[1], tTrue}
+		}
+		req := &http.Request{Header: http.Header{"Authorization": {c}}}
+		u, pw, okb := req.BasicAuth()
+		return Tuple{mkStr(u), mkStr(pw), mkBool(okb)}
 	})
 }
 
